@@ -28,7 +28,7 @@ def run(pf):
     finally:
         shutil.rmtree(d, ignore_errors=True)
 
-with ThreadPoolExecutor(max_workers=12) as ex:
+with ThreadPoolExecutor(max_workers=15) as ex:
     res = list(ex.map(run, cases))
 nbad = 0
 for pf, st, bad in res:
